@@ -402,6 +402,9 @@ void UtilContext::print16(const char *token)
 
     printf(" %04x", num);
 
+    // Stop at the top of the address space instead of wrapping to 0.
+    if (start + 2 < start) { break; }
+
     start = start + 2;
   }
 
@@ -465,6 +468,9 @@ void UtilContext::print32(const char *token)
     }
 
     printf(" %08x", num);
+
+    // Stop at the top of the address space instead of wrapping to 0.
+    if (start + 4 < start) { break; }
 
     start = start + 4;
   }
